@@ -188,6 +188,9 @@ def _rule_cases():
                       lambda mask=mask: ps.ForceApplyNOptionalConstraints(list_of_optional_constraints=[ps.TaskStartAt(task=ps.FixedDurationTask(name=f"T{i}", duration=1), value=i, optional=o) for i, o in enumerate(mask)], nb_constraints_to_apply=1),
                       not all(mask)))
     for mask in itertools.product((False, True), repeat=3):
+        cases.append((f"ForceScheduleNOptionalTasks3/optional_flags={mask}",
+                      lambda mask=mask: ps.ForceScheduleNOptionalTasks(list_of_optional_tasks=[ps.FixedDurationTask(name=f"T{i}", duration=1, optional=o) for i, o in enumerate(mask)], nb_tasks_to_schedule=2, kind="max"),
+                      not all(mask)))
         cases.append((f"ForceApplyNOptionalConstraints3/optional_flags={mask}",
                       lambda mask=mask: ps.ForceApplyNOptionalConstraints(list_of_optional_constraints=[ps.TaskStartAt(task=ps.FixedDurationTask(name=f"T{i}", duration=1), value=i, optional=o) for i, o in enumerate(mask)], nb_constraints_to_apply=2),
                       not all(mask)))
